@@ -50,8 +50,53 @@ type c12Case struct {
 	Danger  []string // which dangerous characters the pattern contains
 }
 
+// c12Long: a pattern of several kilobytes (an alternation of hundreds of tokens, as generated from a list of ids):
+// the request is far longer than any buffer a command usually fits into, and every part of the pattern matters - lines
+// that only the last alternatives select, lines that a pattern cut anywhere would select or miss.
+func c12Long(rng *rand.Rand) *c12Case {
+	c := &c12Case{Danger: []string{"|", "long-pattern"}}
+	k := []int{150, 300, 420, 700, 1500, 5000}[rng.Intn(6)]
+	toks := make([]string, k)
+	for i := range toks {
+		toks[i] = fmt.Sprintf("tok%05dend", i*7+rng.Intn(7))
+	}
+	c.Pattern = strings.Join(toks, "|")
+	if rng.Intn(2) == 0 {
+		c.Pattern = "id=(?:" + c.Pattern + ");"
+	}
+	wrap := func(t string) string {
+		if strings.HasPrefix(c.Pattern, "id=") {
+			return "id=" + t + ";"
+		}
+		return t
+	}
+	for i := 0; i < 60; i++ {
+		j := rng.Intn(k)
+		switch rng.Intn(6) {
+		case 0:
+			j = k - 1 - rng.Intn(3) // the very last alternatives
+		case 1:
+			j = rng.Intn(3)
+		}
+		c.Lines = append(c.Lines, fmt.Sprintf("line %d %s tail", i, wrap(toks[j])))
+		c.Lines = append(c.Lines, fmt.Sprintf("line %d %s tail", i, wrap(toks[j][:len(toks[j])-1])))         // cut token
+		c.Lines = append(c.Lines, fmt.Sprintf("line %d %s tail", i, wrap("tok"+fmt.Sprint(900000+i)+"end"))) // no alternative
+	}
+	c.Lines = append(c.Lines, "to", "tok", "", "unrelated line")
+	rng.Shuffle(len(c.Lines), func(i, j int) { c.Lines[i], c.Lines[j] = c.Lines[j], c.Lines[i] })
+	c.FinalNL = true
+	c.Invert = rng.Intn(3) == 0
+	c.B, c.A, c.M = []int{0, 0, 1}[rng.Intn(3)], []int{0, 0, 2}[rng.Intn(3)], []int{0, 0, 7}[rng.Intn(3)]
+	c.Plain = rng.Intn(3) != 0
+	c.SSH = rng.Intn(3) == 0
+	return c
+}
+
 func c12Gen(rng *rand.Rand) *c12Case {
 	pieces := c12Pieces()
+	if rng.Intn(60) == 7 {
+		return c12Long(rng)
+	}
 	for {
 		c := &c12Case{}
 		n := 1 + rng.Intn(4)
